@@ -241,3 +241,10 @@ pub proof fn lemma_round_haz_int(k: int)
     lemma_floor_of_int(k);
     lemma_is_int_neg(k as real);
 }
+
+pub proof fn lemma_zero_mul(a: int, b: int)
+    requires a == 0
+    ensures a * b == 0
+{
+    assert(a * b == 0) by(nonlinear_arith) requires a == 0;
+}
